@@ -21,9 +21,13 @@ Latitude (statement silent -> accepted): how far progress gets before a complete
 `progress_shortfall`), the order/monotonicity of callback fractions, explicit refusals that are raised after some steps
 (e.g. Z-HIT validates the smoothing settings inside the smoothing stage; counted per progress-step bucket), exceptions that
 the library itself catches (counted in the thorough tier through sys.monitoring, never a verdict).
-Known findings (open, keyed narrowly): F20 automatic KK on sparse spectra (<7 points or <2 points/decade), one key per
-(origin function, exception type); F21 tr-nnls nnls iteration limit without an explicit max_iter; cnls with pooled log F_ext
-evaluation (nested pools).  The same crash on an ordinary spectrum / at another origin is a VIOLATION.
+Known findings (open, keyed narrowly by entry point, origin function, exception type and spectrum class): automatic KK on
+sparse spectra (<7 points or <2 points/decade, suffix ':sparse') and - for _approximate_transition_and_end_point and the
+differential-evolution wrapper - also on ordinary short spectra; 1-2 point spectra for the other entry points (suffix ':n<3');
+tr-nnls nnls iteration limit without an explicit max_iter; bht re-raising a LinAlgError when every attempt failed; lmfit's NaN
+ValueError escaping the cnls test (seen once, not reproducible).  Repaired while this check was built (their inputs stay in the
+workload, reverts are self-test mutants): nested pools for cnls, the NaN branch of _calculate_statistic, singular normal matrix in
+complex-inv, Z-HIT num_points larger than the data.  The same crash at another origin / on another class is a VIOLATION.
 """
 import dis
 import linecache
@@ -41,8 +45,8 @@ from .. import monitors
 
 ID = "C18"
 RULE = (
-    "calls = (entry point, option dict, spectrum). Spectra: 6 synthetic families (2 ZARCs, RC, RC+finite Warburg, inductive, "
-    "negative resistance, blocking capacitor) x point counts 1..30 (odd and even) x 1..10 points/decade x noise {0,1e-3,2e-2}. "
+    "calls = (entry point, option dict, spectrum). Spectra: 7 synthetic families (2 ZARCs, RC, RC+finite Warburg, inductive, "
+    "negative resistance, blocking capacitor, single cut-off arc) x point counts 1..30 (odd and even) x 1..10 points/decade x noise {0,1e-3,2e-2}. "
     "KK: 7 tests x admittance {False,True,None} x add_capacitance x add_inductance x num_RC {auto, valid, maximum, too large, 1} "
     "x num_F_ext_evaluations {-20,-10,0,10,11,20, |n|<10} x rapid x [min,max]_log_F_ext {(-1,1),(-0.5,1.5),(0,1),(-2,2)} x "
     "num_procs {1,2}. Z-HIT: 6 smoothing x 5 interpolation x admittance x {custom weights, 3 named windows, auto} x "
@@ -145,6 +149,9 @@ def make_spectrum(sp):
         Z = R0 + 1j * w * (R0 / w[0]) + R1 / (1 + (1j * w * t1) ** n1)
     elif fam == "neg":
         Z = R0 + R1 / (1 + 1j * w * t1) - 1.3 * (R0 + R1) / (1 + 1j * w * t2)
+    elif fam == "rq1":  # single arc anywhere inside the window (possibly cut off), optionally without series resistance
+        t0 = 10.0 ** rng.uniform(min(lo + 1, hi), max(lo + 1, hi - 1))
+        Z = (R0 if rng.random() < 0.5 else 0.0) + R1 / (1 + (1j * w * t0) ** (1.0 if rng.random() < 0.5 else n2))
     elif fam == "cap":
         Z = R0 + R1 / (1 + (1j * w * t1) ** n1) + 1 / (1j * w * (1 / (w[-1] * 10 * R1)))
     else:
@@ -475,9 +482,9 @@ def BLOCKS(tier):
     return {
         "kk_fixed_log_F_ext_all_cells": {"factors": "7 tests x {Z,Y,None} x C x L x num_RC {valid, auto}", "calls": 156, "exhaustive": True},
         "kk_full_cross": {"factors": "6 linear tests x {Z,Y,None} x C x L x {auto, fixed} num_RC x num_F_ext_evaluations {-20,-10,0,10,11,20} x rapid x 3 grids",
-                          "calls": 5184, "exhaustive": full, "run": full},
+                          "calls": "5184 on each of 2 spectra", "exhaustive": full, "run": full},
         "kk_cnls_full_cross": {"factors": "cnls x the same factors on a 7-point spectrum, max_nfev=100", "calls": 864, "exhaustive": full, "run": full},
-        "zhit_full_cross": {"factors": "6 smoothing x 5 interpolation x {Z,Y} x {custom, boxcar, hann, auto} x 3 (num_points, polynomial_order)", "calls": 720,
+        "zhit_full_cross": {"factors": "6 smoothing x 5 interpolation x {Z,Y} x {custom, boxcar, hann, auto} x 3 (num_points, polynomial_order)", "calls": "720 on each of 2 spectra",
                             "exhaustive": full, "run": full},
         "fit_cells": {"factors": "9 methods x 4 weights per circuit", "exhaustive": True},
         "tr_nnls_lm_cells": {"factors": "tr-nnls 3 modes x 4 lambda modes x 2 max_iter; lm 5 orders x 2 order methods", "exhaustive": True},
@@ -642,6 +649,9 @@ def known_key(ent, ep, opts, exc, d, n):
     if ent == "kk" and isinstance(exc, AssertionError) and "daemonic processes are not allowed to have children" in msg:
         if ep != "kk" or (opts.get("test") == "cnls" and int(opts.get("num_F_ext_evaluations", 20)) > 0 and int(opts.get("num_procs", -1)) != 1):
             return "C18/kk/cnls-nested-pool"
+    if ent == "kk" and type(exc) is ValueError and msg.startswith("NaN values detected") and foreign.startswith("lmfit:") \
+            and "_use_cnls" in d.get("funcs", []):
+        return "C18/kk/cnls-lmfit-nan-valueerror"
     if ent == "bht" and type(exc).__name__ == "LinAlgError" and ("_perform_attempts" in d.get("funcs", []) or "_hilbert_transform_process" in d.get("funcs", [])):
         return "C18/bht/all-attempts-failed:LinAlgError"
     if ent == "zhit" and ep == "zhit" and type(exc) is ValueError and d["site"] == "_smooth_phase" and int(opts.get("num_points", 3)) > n:
@@ -898,7 +908,7 @@ def gen_cases(tier, seed):
     if quick:
         kk_specs = [(_spec(rng, int(rng.choice([8, 9])), ppd=2), False), (_spec(rng, int(rng.choice([11, 12, 13])), ppd=rng.choice([3, 5])), False)]
     else:
-        kk_specs = [(_spec(rng, int(rng.choice([9, 10, 11, 12])), ppd=3), True)]
+        kk_specs = [(_spec(rng, int(rng.choice([9, 10, 11, 12])), ppd=3), True), (_spec(rng, int(rng.choice([13, 14])), ppd=5, fam=str(rng.choice(["neg", "rl", "cap"]))), True)]
         for nn in (7, 8, 13, 16, 21):
             kk_specs.append((_spec(rng, nn, ppd=rng.choice([2, 3, 5, 8])), False))
     for sp, full in kk_specs:
@@ -955,7 +965,7 @@ def gen_cases(tier, seed):
     if quick:
         z_specs = [(_spec(rng, int(rng.choice([7, 8])), ppd=2), False), (_spec(rng, int(rng.choice([12, 13])), ppd=rng.choice([3, 5]), fam="neg"), False)]
     else:
-        z_specs = [(_spec(rng, int(rng.choice([10, 11])), ppd=3), True)]
+        z_specs = [(_spec(rng, int(rng.choice([10, 11])), ppd=3), True), (_spec(rng, 9, ppd=2, fam="neg"), True)]
         for nn, fam in ((7, None), (9, "neg"), (16, None), (21, "cap")):
             z_specs.append((_spec(rng, nn, fam=fam), False))
     for sp, full in z_specs:
@@ -982,6 +992,12 @@ def gen_cases(tier, seed):
         sp = _spec(rng, nn, fam=["rq2", "rc", "rcw", "rq2", "rl", "rc"][k % 6])
         dc = _drt_calls(rng, nn, tier)
         cases += _pack("drt", sp, [c for c, _ in dc], [x for _, x in dc], budget, "drt:tr-nnls/lm")
+    # long smooth single-arc spectra: tr-nnls only (scipy's nnls iteration budget, known finding F21)
+    for k, nn in enumerate([41, 61] if quick else [31, 41, 41, 61, 61, 81]):
+        sp = _spec(rng, nn, ppd=rng.choice([5, 10]), fam="rq1", noise=0.0)
+        sp["logf0"] = 5.0
+        dc = [c for c in _drt_calls(rng, nn, tier) if c[0].get("method") == "tr-nnls"]
+        cases += _pack("drt", sp, [c for c, _ in dc], [0.1 for _ in dc], budget, "drt:tr-nnls-long")
     for k, nn in enumerate([10] if quick else [9, 14]):
         sp = _spec(rng, nn, fam="rq2" if k == 0 else "rc")
         rows = _bht_rows(rng, full=(not quick and k == 0))
